@@ -314,6 +314,15 @@ theorem recvC_never_above_limit (c0 max : Nat) (hmax : 0 < max) (t : Transport) 
   · omega
   · exact hle
 
+/-- 9b. A whole session (`n` calls, stopping at the first failure) on ANY wire under ANY schedule: the
+    messages returned, in order, followed by what the last (failing) call consumed, are a prefix of the
+    wire — nothing is skipped, reordered, duplicated or invented between messages — and every returned
+    message is one complete frame within the limit. -/
+theorem recvAll_any_wire (c0 max n : Nat) (t : Transport) :
+    ∃ got, t.wire = (recvAll c0 max n t).1.flatten ++ got ++ (recvAll c0 max n t).2.2.wire ∧
+      ∀ m ∈ (recvAll c0 max n t).1, Framed m ∧ (max = 0 ∨ m.length ≤ max) :=
+  recvAll_any c0 max n t
+
 /-! ### non-vacuity -/
 
 /-- the 16 bytes of an Integer item (tag 0x42000A, value 1). -/
